@@ -72,6 +72,7 @@ func TestVerifC20CLI(t *testing.T) {
 	}
 	os.MkdirAll(filepath.Join(prot, "sub"), 0o755)
 	os.Symlink(prot, filepath.Join(outside, "absLink"))
+	os.Symlink(outside, filepath.Join(prot, "outLink"))
 	if rel, err := filepath.Rel(outside, prot); err == nil {
 		os.Symlink(rel, filepath.Join(outside, "relLink"))
 	}
@@ -99,6 +100,11 @@ func TestVerifC20CLI(t *testing.T) {
 		{"new-database-json-directory-name", outside, filepath.Join(prot, "x.json") + "/"},
 		{"CONTROL-outside", outside, filepath.Join(outside, "sigs.db")},
 		{"CONTROL-outside-relative", outside, "sigs.db"},
+		// spelled THROUGH the protected directory, located outside it (a link inside /root that
+		// leads out: /root/.sfw -> /var/lib/sfw)
+		{"CONTROL-outside-through-link-inside-protected", outside, filepath.Join(prot, "outLink", "sigs.db")},
+		{"CONTROL-outside-new-database-through-link-inside-protected", outside, filepath.Join(prot, "outLink", "fresh2.db")},
+		{"CONTROL-outside-detour-through-protected", outside, filepath.Join(prot, "sub", "..", "outLink", "sigs.db")},
 	}
 	commands := []struct {
 		name    string
@@ -123,7 +129,7 @@ func TestVerifC20CLI(t *testing.T) {
 			if !vh.Mine(idx) {
 				continue
 			}
-			isNew := strings.HasPrefix(sp.name, "new-database")
+			isNew := strings.Contains(sp.name, "new-database")
 			if isNew && !c.creates {
 				continue
 			}
